@@ -397,9 +397,106 @@ func c18cDecode(kind, form string, in []byte) (val *c18cCont, outcome string) {
 	case p != "":
 		return nil, "panic:" + p
 	case err != nil:
+		if form != "proto" {
+			c18cReuseCheck(kind, in, nil, "error")
+		}
 		return nil, "error"
 	}
+	if form != "proto" {
+		c18cReuseCheck(kind, in, val, "value")
+	}
 	return val, "value"
+}
+
+// ---------------------------------------------------------------- decoding into a receiver that already holds a value
+//
+// The getters reuse one container across the responses of several peers, so ReadFrom must give the same result on a
+// receiver that already holds an earlier response as on a fresh one (what the wire carries is what the caller gets).
+
+type c18cRecv struct {
+	read func(in []byte) error
+	cont func() *c18cCont
+}
+
+func c18cNewRecv(kind string) *c18cRecv {
+	switch kind {
+	case "sample":
+		v := new(shwap.Sample)
+		return &c18cRecv{func(in []byte) error { _, err := v.ReadFrom(bytes.NewReader(in)); return err }, func() *c18cCont { return c18cSampleOf(*v) }}
+	case "row":
+		v := new(shwap.Row)
+		return &c18cRecv{func(in []byte) error { _, err := v.ReadFrom(bytes.NewReader(in)); return err }, func() *c18cCont { return c18cRowOf(*v) }}
+	case "rnd":
+		v := new(shwap.RowNamespaceData)
+		return &c18cRecv{func(in []byte) error { _, err := v.ReadFrom(bytes.NewReader(in)); return err }, func() *c18cCont { return c18cRndOf(*v) }}
+	case "nd":
+		v := new(shwap.NamespaceData)
+		return &c18cRecv{func(in []byte) error { _, err := v.ReadFrom(bytes.NewReader(in)); return err }, func() *c18cCont {
+			c := &c18cCont{Kind: "nd"}
+			for _, d := range *v {
+				c.Nd = append(c.Nd, c18cRndOf(d))
+			}
+			return c
+		}}
+	case "range":
+		v := new(shwap.RangeNamespaceData)
+		return &c18cRecv{func(in []byte) error { _, err := v.ReadFrom(bytes.NewReader(in)); return err }, func() *c18cCont { return c18cRangeOf(*v) }}
+	}
+	return nil
+}
+
+var (
+	c18cPrev      = map[string][][]byte{} // per kind: streams that decoded to a value earlier in the run (the longest and the latest)
+	c18cReuseDiff []map[string]any
+	c18cReuseN    int
+)
+
+func c18cReuseCheck(kind string, in []byte, fresh *c18cCont, outcome string) {
+	for _, prev := range c18cPrev[kind] {
+		rc := c18cNewRecv(kind)
+		if rc == nil {
+			return
+		}
+		var err error
+		var got *c18cCont
+		pn := zv.Recover(func() {
+			if e := rc.read(prev); e != nil {
+				err = fmt.Errorf("earlier stream no longer decodes: %w", e)
+				return
+			}
+			if err = rc.read(in); err == nil {
+				got = rc.cont()
+			}
+		})
+		c18cReuseN++
+		bad := ""
+		switch {
+		case pn != "":
+			bad = "panic: " + pn
+		case outcome == "value" && err != nil:
+			bad = "a stream that decodes into a fresh receiver is refused by a used one: " + err.Error()
+		case outcome == "value" && !c18cEqual(fresh, got):
+			bad = "the value decoded into a used receiver differs from the value decoded into a fresh one"
+		case outcome == "error" && err == nil:
+			bad = "a stream that a fresh receiver refuses is accepted by a used one"
+		}
+		if bad != "" && len(c18cReuseDiff) < 20 {
+			c18cReuseDiff = append(c18cReuseDiff, map[string]any{"kind": kind, "why": bad, "earlier_stream_hex": c18cHex(prev), "stream_hex": c18cHex(in)})
+		}
+	}
+	if outcome == "value" && len(in) > 0 {
+		ps := c18cPrev[kind]
+		switch {
+		case len(ps) == 0:
+			ps = [][]byte{in, in}
+		default:
+			if len(in) > len(ps[0]) {
+				ps[0] = in
+			}
+			ps[1] = in
+		}
+		c18cPrev[kind] = ps
+	}
 }
 
 // ---------------------------------------------------------------- the normal form the Go code is documented (in the model) to return
@@ -909,6 +1006,12 @@ func c18cHex(b []byte) string {
 func TestVerifC18Containers(t *testing.T) {
 	r := zv.Start(t, "C18")
 	defer r.Finish()
+	defer func() {
+		r.Set("reused_receiver_decodes", c18cReuseN)
+		for _, d := range c18cReuseDiff {
+			r.Violation("reused-receiver:"+fmt.Sprint(d["kind"]), fmt.Sprintf("ReadFrom into a %v that already holds an earlier response: %v", d["kind"], d["why"]), d)
+		}
+	}()
 	rng := r.Rand().Fork(1818)
 	gen := &c18cGen{rng: rng}
 	em := &c18cEmitter{}
